@@ -759,6 +759,11 @@ func (x *Exec) evalCall(env *Env, e *SExpr) Val {
 		// content axioms are not added to the path condition)
 		_, m := x.byteMem(env.st)
 		return Val{T: types.Typ[types.String], L: []*Term{App("str.of", IntS, Select(m, v.L[0]), v.L[1], v.L[2]), x.idxConst(0), v.L[2]}}
+	case "decimal":
+		// canonical decimal text of an integer: an abstract string determined by the number
+		v := arg(0).Term()
+		ln := App("dec.len", IntS, v)
+		return Val{T: types.Typ[types.String], L: []*Term{App("dec.str", IntS, v), x.idxConst(0), ln}}
 	case "mapHas", "mapGet":
 		m := arg(0)
 		mt, ok := m.T.Underlying().(*types.Map)
